@@ -43,7 +43,21 @@ def gen_script(rnd, tier):
         bases[i] = bs
         if any(c03.reach(bases, j) != before[j] for j in down if j != i):
             changed_indirect += 1
+        # the SAME single question immediately before and immediately after the re-basing (nothing else asked of that
+        # specification in between): one whose answer the re-basing flips, when there is one
+        pairs = [(j, t) for j in sorted(down) for t in range(1, n) if t != j and kind[j] != "T" and
+                 ((t in before[j]) != (t in c03.reach(bases, j)))]
+        probe = rnd.choice(pairs) if pairs and rnd.random() < 0.7 else None
+        if probe is None and rnd.random() < 0.3:
+            j = rnd.randrange(1, n)
+            probe = (j, rnd.choice([t for t in range(1, n)]))
+        if probe:
+            lines.append("q1 %d : %d" % probe)
         lines.append("set %d : %s" % (i, " ".join(map(str, bs))))
+        if probe:
+            lines.append("q1 %d : %d" % probe)
+            if rnd.random() < 0.5:
+                lines.append("q1 %d : %d" % probe)
         for j in range(1, n):
             lines.append("q %d :" % j)
     if rnd.random() < 0.35:
@@ -112,6 +126,13 @@ def oracle(chk, lines, outs):
             if out != "ok":
                 bad.append((i, "__bases__ assignment failed: " + out))
             bases[int(f[1])] = list(a)
+        elif f[0] == "q1":
+            chk.count("single_questions")
+            want = a[0] == 0 or a[0] in c03.reach(bases, int(f[1]))
+            if want != (out == "true") or out not in ("true", "false"):
+                bad.append((i, "node %d .isOrExtends(node %d) = %s, reachable over current bases: %s" % (int(f[1]), a[0], out, want)))
+            elif lines[i - 1].startswith("set ") and i >= 2 and lines[i - 2] == line and outs[i - 2] != out:
+                chk.count("single_questions_flipped_by_the_rebasing_between")
         elif f[0] in ("q", "qs"):
             c = int(f[1])
             d = c03.parse_q(out)
